@@ -1400,6 +1400,32 @@ pub fn c20(tier: &str, flavor: Flavor) -> Spec {
             }
         }
     }
+    // operations on keys sharing a shard (1 and 257) while work for the neighbour is still buffered:
+    // every call must complete (no self-deadlock on the shard lock, whatever the processor does)
+    {
+        let wl2 = vec![
+            ins(1, 1, 5000),
+            Op::Settle,
+            ins(257, 1, 0),
+            Op::Ttl { k: 1 },
+            Op::Get { k: 1 },
+            Op::Mut { k: 1 },
+            ins(1, 1, 0),
+            Op::Ttl { k: 257 },
+            Op::Rem { k: 257 },
+            Op::Ttl { k: 1 },
+            Op::Settle,
+            Op::Wait,
+            ins(7, 1, 0),
+            Op::Settle,
+        ];
+        for buffer_size in [1usize, 8] {
+            for max_cost in [1i64, 100] {
+                let cfg = Cfg { max_cost, buffer_size, ..Cfg::default() };
+                jobs.push(job(single(&cfg, flavor, wl2.clone()), &[2], "c20-same-shard"));
+            }
+        }
+    }
     // zero parameters are rejected
     for (nc, mc, bs) in [(0usize, 10i64, 8usize), (10, 0, 8), (10, 10, 0)] {
         let cfg = Cfg { num_counters: nc, max_cost: mc, buffer_size: bs, ..Cfg::default() };
